@@ -53,6 +53,9 @@ Proof. vm_compute. reflexivity. Qed.
    Transport's own configuration, against which origins are verified, is never written to *)
 Lemma ob_upstream_dialer_gets_tls_clone : upstream_dialer_gets_tls_clone = true.
 Proof. vm_compute. reflexivity. Qed.
+(* the CA the proxy generates for itself is not given a lifetime derived from --mitm-validity: it outlives the leaves *)
+Lemma ob_generated_ca_lifetime_not_from_validity : generated_ca_lifetime_not_from_validity = true.
+Proof. vm_compute. reflexivity. Qed.
 (* InsecureSkipVerify is assigned in exactly one place, under `if c.Insecure` *)
 Lemma ob_insecure_only_under_flag : insecure_only_under_flag = true /\ insecure_skip_verify_sites = 1.
 Proof. vm_compute. split; reflexivity. Qed.
